@@ -155,13 +155,17 @@ func (e *storeEngine) buildBlock(txNames []string, counter string) *ledger.Block
 	meta := e.ldg.GetChainMeta()
 	h := meta.Height + 1
 	e.ldg.PrepareBlock(nil, h)
-	e.ldg.SetState(lAddr("a0"), []byte("height"), []byte(fmt.Sprint(h)), nil)
-	e.ldg.SetState(lAddr("a0"), []byte(fmt.Sprintf("k%d", h)), []byte(strings.Join(txNames, ",")), nil)
-	// a storage key that is neither text nor a 32-byte slot (raw bytes, as a wasm contract or a packed counter would use)
-	e.ldg.SetState(lAddr("a0"), verifBinKey, []byte(fmt.Sprint(h)), nil)
-	if h == 1 || h%3 == 0 {
-		// most blocks change only the storage of an account that has a balance; block 1 and every third block change the balance too
-		e.ldg.SetBalance(lAddr("a0"), big.NewInt(int64(1000+h)))
+	// an EMPTY block above height 1 is an idle block: it changes no account at all (what an empty block does on a real node) — its
+	// journal has no entry, its state root chains on from the previous one (seeding round 29)
+	if !(len(txNames) == 0 && h > 1) {
+		e.ldg.SetState(lAddr("a0"), []byte("height"), []byte(fmt.Sprint(h)), nil)
+		e.ldg.SetState(lAddr("a0"), []byte(fmt.Sprintf("k%d", h)), []byte(strings.Join(txNames, ",")), nil)
+		// a storage key that is neither text nor a 32-byte slot (raw bytes, as a wasm contract or a packed counter would use)
+		e.ldg.SetState(lAddr("a0"), verifBinKey, []byte(fmt.Sprint(h)), nil)
+		if h == 1 || h%3 == 0 {
+			// most blocks change only the storage of an account that has a balance; block 1 and every third block change the balance too
+			e.ldg.SetBalance(lAddr("a0"), big.NewInt(int64(1000+h)))
+		}
 	}
 	e.ldg.Finalise(true)
 	accounts, root := e.ldg.FlushDirtyData()
